@@ -14,7 +14,7 @@ RULE = (
     "on target markets with p0 = get_market_price(0) read when the round returns (1e-9 relative skip band "
     "around the line); is_running is read at every step-begin record. Case = one run; distinct = (seed, rule "
     "table); non-trivial = run with at least one halt."
-    ' Since the seeded rounds: a large-move profile (rates 0.25..1.5, quotes at 0.3..4.2 x the time-0 price) in which the line passes +100%, rules set up twice, forced rounds and refused requests in the direct histories.'
+    ' Since the seeded rounds: a large-move profile (rates 0.25..1.5, quotes at 0.3..4.2 x the time-0 price) in which the line passes +100%, rules set up twice, forced rounds and refused requests in the direct histories; two rule objects on one market (a tiered breaker, or one rule listed under two sessions), each with its own count, asked in set-up order.'
 )
 ASSUMPTIONS = [
     "halts so far are counted per rule (a multi-target rule shares the count)",
@@ -25,12 +25,15 @@ REQUIRED = {
               "class/acceptance_during_halt": 300, "class/resumed_on_schedule": 80, "running_flag_checks": 5000,
               "rounds_on_targets_judged": 2000, "class/forced_round_on_stopped_market": 30,
               "class/line_not_crossed_rounds": 1000, "class/exactly_on_the_line_decidable": 3,
-              "class/price_beyond_plus_100pct_below_the_line": 5},
+              "class/price_beyond_plus_100pct_below_the_line": 5, "class/run_with_two_rule_objects_on_one_market": 20,
+              "class/halt_of_a_market_that_a_second_rule_object_also_targets": 60},
     "thorough": {"halts": 5000, "class/run_with_2plus_halts": 600, "class/halt_cut_by_session_end": 300,
                  "class/acceptance_during_halt": 9000, "class/resumed_on_schedule": 2500,
                  "running_flag_checks": 150000, "rounds_on_targets_judged": 60000,
                  "class/forced_round_on_stopped_market": 900, "class/line_not_crossed_rounds": 30000, "class/exactly_on_the_line_decidable": 90,
-                 "class/price_beyond_plus_100pct_below_the_line": 150},
+                 "class/price_beyond_plus_100pct_below_the_line": 150,
+                 "class/run_with_two_rule_objects_on_one_market": 500,
+                 "class/halt_of_a_market_that_a_second_rule_object_also_targets": 1500},
 }
 
 
@@ -119,6 +122,34 @@ def gen_case(rng, tier, idx):
                                                     "vol": [1, 3], "ttl": [2, 5]}])
         for s_ in cfg["simulation"]["sessions"]:
             s_["iterationSteps"] = max(s_["iterationSteps"], 25)
+    if idx % 11 in (2, 8):
+        # tiered breaker: two rule objects share target markets - a narrow line with a long halt and a wide line with a
+        # short halt (or no halt length at all); only the rule that halted a market may resume it
+        for k in [k for k in cfg if k.startswith("HALT")]:
+            for s_ in cfg["simulation"]["sessions"]:
+                if k in s_.get("events", []):
+                    s_["events"].remove(k)
+            del cfg[k]
+        tg = rng.sample(mk, rng.randint(1, len(mk)))
+        r0 = rng.choice([0.0, 0.005, 0.01, 0.0078125])
+        cfg["HALT0"] = {"class": "TradingHaltRule", "targetMarkets": tg, "triggerChangeRate": r0,
+                        "haltingTimeLength": rng.choice([3, 5, 8])}
+        tg1 = list(tg) if rng.random() < 0.6 else rng.sample(mk, rng.randint(1, len(mk)))
+        if not set(tg1) & set(tg):
+            tg1.append(tg[0])
+        cfg["HALT1"] = {"class": "TradingHaltRule", "targetMarkets": tg1,
+                        "triggerChangeRate": max(r0, 0.005) * rng.choice([4.0, 8.0, 16.0]),
+                        "haltingTimeLength": rng.choice([0, 1, 2])}
+        for name in rng.sample(["HALT0", "HALT1"], 2):
+            rng.choice(cfg["simulation"]["sessions"]).setdefault("events", []).append(name)
+    if idx % 11 == 6 and ns >= 2:
+        # the same rule listed under two sessions: two rule objects with the same settings, each with its own count
+        halts = [k for k in cfg if k.startswith("HALT")]
+        name = halts[0]
+        for s_ in cfg["simulation"]["sessions"]:
+            if name not in s_.get("events", []):
+                s_.setdefault("events", []).append(name)
+                break
     if idx % 11 == 4 and len(mk) >= 2:
         # relay: ONE rule over all markets with a line that almost any fill crosses and a long halt; a halt that is
         # cut short by the end of the first session is followed, early in the next session, by a halt of another
@@ -167,12 +198,18 @@ class C16Monitor:
         self.case = case
         cfg = case["config"]
         self.sess_cfg = cfg["simulation"]["sessions"]
-        listed = {n for s in self.sess_cfg for n in s.get("events", [])}
+        # one rule object per listing under a session, in the order in which the runner sets them up (that is the
+        # order in which they are asked after a fill); each has its own count of halts
         self.rules = []
-        for name, e in cfg.items():
-            if isinstance(e, dict) and e.get("class") == "TradingHaltRule" and name in listed and e.get("enabled", True):
-                self.rules.append({"name": name, "targets": list(e["targetMarkets"]) + list(e.get("extraTargets", [])), "rate": e["triggerChangeRate"],
-                                   "L": e["haltingTimeLength"], "k": 0})
+        for s_ in self.sess_cfg:
+            for name in s_.get("events", []):
+                e = cfg.get(name)
+                if isinstance(e, dict) and e.get("class") == "TradingHaltRule" and e.get("enabled", True):
+                    self.rules.append({"name": name, "targets": list(e["targetMarkets"]) + list(e.get("extraTargets", [])),
+                                       "rate": e["triggerChangeRate"], "L": e["haltingTimeLength"], "k": 0})
+        self.shared = {t for r in self.rules for t in r["targets"] if sum(1 for q in self.rules if t in q["targets"]) >= 2}
+        if self.shared:
+            res.count("class/run_with_two_rule_objects_on_one_market")
         self.halted = {}        # market name -> {"h":, "sess":, "rule":}
         self.unsure = {}        # market name -> (time, rule) of a round that landed on the line
         self.sim = None
@@ -302,6 +339,8 @@ class C16Monitor:
                     r["k"] += 1
                     self.n_halts += 1
                     res.count("halts")
+                    if m.name in self.shared:
+                        res.count("class/halt_of_a_market_that_a_second_rule_object_also_targets")
                     break
                 elif dev > thr * (1 - 1e-9) and not exact:
                     res.count("rounds_on_the_line_not_judged")
